@@ -7,6 +7,7 @@ type TCPServer struct {
 	L      net.Listener
 	Port   int
 	Handle func(c net.Conn)
+	*Freezer
 }
 
 // NewTCPServer starts a server.
@@ -15,13 +16,14 @@ func NewTCPServer(h func(c net.Conn)) (*TCPServer, error) {
 	if err != nil {
 		return nil, err
 	}
-	s := &TCPServer{L: l, Port: l.Addr().(*net.TCPAddr).Port, Handle: h}
+	s := &TCPServer{L: l, Port: l.Addr().(*net.TCPAddr).Port, Handle: h, Freezer: newFreezer()}
 	go func() {
 		for {
 			c, err := l.Accept()
 			if err != nil {
 				return
 			}
+			c = s.wrap(c)
 			go func() { s.Handle(c); _ = c.Close() }()
 		}
 	}()
@@ -29,4 +31,4 @@ func NewTCPServer(h func(c net.Conn)) (*TCPServer, error) {
 }
 
 // Close stops the server.
-func (s *TCPServer) Close() { _ = s.L.Close() }
+func (s *TCPServer) Close() { _ = s.L.Close(); s.Thaw() }
